@@ -19,6 +19,9 @@ PRODS = [(f"attr.{n}", "({0})." + n, 1) for n in POOL] + [
     ("neg", "-({0})", 1), ("not", "not ({0})", 1), ("pos", "+({0})", 1), ("inv", "~({0})", 1),
     ("add", "({0}) + ({1})", 2), ("sub", "({0}) - ({1})", 2), ("mul", "({0}) * ({1})", 2), ("div", "({0}) / ({1})", 2),
     ("mod", "({0}) % ({1})", 2), ("floordiv", "({0}) // ({1})", 2), ("pow", "({0}) ** ({1})", 2),
+    ("bitand", "({0}) & ({1})", 2), ("bitor", "({0}) | ({1})", 2), ("bitxor", "({0}) ^ ({1})", 2),
+    ("lshift", "({0}) << ({1})", 2), ("rshift", "({0}) >> ({1})", 2), ("matmul", "({0}) @ ({1})", 2),
+    ("len", "len({0})", 1), ("is", "({0}) is ({1})", 2), ("notin", "({0}) not in ({1})", 2),
     ("and", "({0}) and ({1})", 2), ("or", "({0}) or ({1})", 2), ("and3", "({0}) and ({1}) and ({2})", 3),
     ("gt", "({0}) > ({1})", 2), ("eq", "({0}) == ({1})", 2), ("ne", "({0}) != ({1})", 2), ("le", "({0}) <= ({1})", 2),
     ("chain", "({0}) < ({1}) < ({2})", 3), ("in", "({0}) in ({1})", 2),
@@ -30,7 +33,8 @@ PRODS = [(f"attr.{n}", "({0})." + n, 1) for n in POOL] + [
     ("lam.arg", "({0}).Select(lambda y: ({1}))", 2), ("lam.argy", "({0}).Select(lambda y: y.pt + ({1}))", 2),
     ("lam.same", "({0}).Where(lambda e: e.pt > ({1}))", 2), ("lam.call", "(lambda y: y + 1)({0})", 1),
     ("tupidx0", "(({0}), ({1}))[0]", 2), ("tupidx1", "(({0}), ({1}))[1]", 2), ("tupidx2", "(({0}), ({1}))[2]", 2),
-    ("tupidxv", "(({0}), 1)[{1}]", 2), ("tupidxneg", "(({0}), 1)[-1]", 1), ("lstidx", "[({0}), 1][0]", 1),
+    ("tupidxv", "(({0}), 1)[{1}]", 2), ("tupidxneg", "(({0}), 1)[-1]", 1), ("tupidxneg3", "(({0}), 1)[-3]", 1), ("tupidxneg2", "(({0}), 1)[-2]", 1),
+    ("lstidxneg3", "[({0}), 1][-3]", 1), ("lstidx2", "[({0}), 1][2]", 1), ("lstidx", "[({0}), 1][0]", 1),
     ("dictattr", "{{'a': ({0})}}.a", 1), ("dictkey", "{{'a': ({0})}}['a']", 1), ("dictmiss", "{{'a': ({0})}}.b", 1),
     ("dictmisskey", "{{'a': ({0})}}['b']", 1), ("dictzip", "{{'a': ({0})}}.Zip()", 1),
     ("dictattr.camel", "{{'jetPt': ({0})}}.jetPt", 1), ("dictmiss.case", "{{'pt': ({0})}}.Pt", 1),
@@ -42,8 +46,8 @@ PRODS = [(f"attr.{n}", "({0})." + n, 1) for n in POOL] + [
 LEGAL_CONST = (str, int, float, bool, complex, bytes)
 
 
-DIAG_PARENTS = ("add", "sub", "mul", "div", "mod", "and", "or", "gt", "eq", "ifexp", "tuple2", "list2", "dict2")
-DIAG_CHILDREN = ("gt", "eq", "not", "and", "neg", "add", "div", "leaf:1", "leaf:1.5", "leaf:'s'", "leaf:True", "tuple2", "dict2")
+DIAG_PARENTS = ("add", "sub", "mul", "div", "mod", "and", "or", "gt", "eq", "ifexp", "tuple2", "list2", "dict2", "bitand", "lshift", "matmul")
+DIAG_CHILDREN = ("gt", "eq", "not", "and", "neg", "add", "div", "leaf:1", "leaf:1.5", "leaf:'s'", "leaf:True", "tuple2", "dict2", "len")
 
 
 def fill(tpl, kids):
@@ -111,6 +115,21 @@ def gen_sources(depth3_reps):
                 kids[slot] = fill(ctpl, ckids)
                 s = fill(ptpl, kids)
                 out.setdefault(s, ("d3", f"{name}[{slot}]<-{cname}[{cslot}]<-{gname}"))
+    return out
+
+
+def nested_records():
+    """two dictionary literals with the same outer key and differently shaped inner dictionaries, one built and one
+    taken apart through both levels with every spelling of the two lookups (present and absent inner keys)"""
+    inners = ["{'p': e.x}", "{'q': e.y}", "{'p': e.x, 'q': e.y}", "{'p': 1.5}", "{'p': 's'}"]
+    acc = [("['a']['%s']", "%s"), (".a.%s", "%s"), ("['a'].%s", "%s"), (".a['%s']", "%s")]
+    out = []
+    for i1 in inners:
+        for i2 in inners:
+            for a, _ in acc:
+                for k in ("p", "q"):
+                    out.append(f"({{'a': {i1}}}, {{'a': {i2}}}{a % k})")
+                    out.append(f"({{'a': {i2}}}{a % k}, {{'a': {i1}}})")
     return out
 
 
@@ -249,7 +268,9 @@ class C10(Check):
         reps = ["attr.value", "neg", "add", "gt", "tuple2", "dict2", "sub0", "meth1"] if Q else [p[0] for p in PRODS]
         return [Space("expressions", {"productions": len(PRODS), "leaves": LEAVES, "depth2": "complete pairs",
                                       "depth3_grandchildren": len(reps)},
-                      (lambda reps=reps: sorted(gen_sources(reps).keys())), runner="run_expr")]
+                      (lambda reps=reps: sorted(gen_sources(reps).keys())), runner="run_expr"),
+                Space("nested-records", {"inner_shapes": 5, "lookups": "both levels, subscript / attribute spelling mixed, present and absent keys",
+                                         "position": "the other record before / after"}, nested_records, runner="run_expr")]
 
     def run_expr(self, src):
         from func_adl import EventDataset
@@ -333,13 +354,38 @@ SETUPS = [
     lambda DS: DS().Select("lambda e: (e.x, 's')").Select("lambda tup: tup[1]"),
     lambda DS: DS().Select("lambda e: 1.5").Select("lambda num: num + 1").Where("lambda num: num > 1"),
 ]
-AFTER_SETUP = ["rec.other + e.eta", "good.x", "tup[5]", "num.y if e.c else e.d", "rec['zz']", "e.f(good, rec, tup, num)"]
+# the same lambda TEXT used on a typed stream first (whose type following fills defaults in, also in nested lambdas)
+TYPED_TEXTS = ["e.Jets().Select(lambda j: j.pt())", "e.met()", "(e.Jets().Count(), e.met(scale=2.0))"]
+
+
+def _typed_setup(k):
+    def run(DS):
+        from typing import Iterable
+
+        class Jet:
+            def pt(self, unit: float = 1.0) -> float: ...
+
+        class Event:
+            def Jets(self, name: str = "AntiKt4") -> Iterable[Jet]: ...
+
+            def met(self, scale: float = 1.0) -> float: ...
+
+        DS(Event).Select(f"lambda e: {TYPED_TEXTS[k]}")
+    return run
+
+
+SETUPS += [_typed_setup(k) for k in range(len(TYPED_TEXTS))]
+AFTER_SETUP = ["rec.other + e.eta", "good.x", "tup[5]", "num.y if e.c else e.d", "rec['zz']", "e.f(good, rec, tup, num)"] + TYPED_TEXTS + \
+    ["{'a': {'p': e.x}}", "{'a': {'q': e.y}}['a']['q']", "{'a': {'q': e.y}}.a.q", "{'a': {'p': 1.5}}['a']['p'] if e.c else 2.5"]
 
 
 def _run_setup(self, k):
     from func_adl import EventDataset
 
     class DS(EventDataset):
+        def __init__(self, item_type=None):
+            super().__init__() if item_type is None else super().__init__(item_type)
+
         async def execute_result_async(self, a, title=None):
             return a
 
